@@ -882,7 +882,14 @@ type c02Obs struct {
 	JErr  string
 }
 
-func c02Observe(req core.LoadReq, root string) c02Obs {
+func c02Observe(req core.LoadReq, root string) (obs c02Obs) {
+	// a panic of the loader is an outcome like any other here (that loading never panics is property C01):
+	// what C02 asks is that every load of the same input ends the same way
+	defer func() {
+		if r := recover(); r != nil {
+			obs = c02Obs{Class: "panic", Err: "panic@" + core.PanicSite()}
+		}
+	}()
 	p, err := req.LoadIn(root)
 	if err != nil {
 		return c02Obs{Class: "err", Err: core.ScrubErr(err, root)}
@@ -1033,9 +1040,12 @@ func stableSite(p string) string {
 func c02Compare(a, b c02Obs, what string) map[string]any {
 	if a.Class != b.Class {
 		msg := a.Err + b.Err
+		if a.Class == "panic" || b.Class == "panic" {
+			return map[string]any{"diverge": what, "site": "outcome:" + a.Class + "/" + b.Class + ":" + strings.TrimPrefix(msg, "panic@"), "detail": fmt.Sprintf("one load ends with %s, another with %s (%s)", a.Class, b.Class, msg)}
+		}
 		return map[string]any{"diverge": what, "site": errSite(msg), "detail": fmt.Sprintf("one load succeeds, another fails with: %s", msg)}
 	}
-	if a.Class == "err" {
+	if a.Class == "err" || a.Class == "panic" {
 		return nil // which error is reported may depend on the order; whether one is must not
 	}
 	if (a.YErr != "") != (b.YErr != "") || (a.JErr != "") != (b.JErr != "") {
@@ -1187,6 +1197,9 @@ func init() {
 				}
 			}
 			res := map[string]any{"class": first.Class, "loads": a.N + len(a.Variants)}
+			if first.Class == "panic" {
+				res["site"] = first.Err
+			}
 			if first.Class == "err" {
 				res["err"] = errSite(first.Err)
 				if dbg := os.Getenv("C02_DEBUG"); dbg != "" {
